@@ -29,7 +29,7 @@ Lemma Kseq_of l : has_seq3 (Seq l) = false -> Kseq Kp nullable l.
 Proof.
   simpl. rewrite orb_false_iff, andb_false_iff, existsb_false. intros [[H|H] H2].
   - split; auto. left. destruct (length l) as [|[|[|k]]]; try discriminate; lia.
-  - split; auto. right. intros Hf. apply forallb_Forall in Hf. congruence.
+  - split; auto. right. intros Hf. apply forallb_Forall in Hf. change (forallb nullable l = false) in H. congruence.
 Qed.
 
 Lemma neg_clean_of l : wfp (Neg l) = true -> has_ninv (Neg l) = false -> neg_clean l.
@@ -52,13 +52,13 @@ Proof.
   - simpl in Hw, Hi. rewrite andb_true_iff, negb_true_iff, forallb_forall in Hw.
     rewrite existsb_false in Hi. destruct Hw as [Hne Hw].
     eapply ev_spec_weaken; [apply Kseq_of|].
-    apply (ev_seq_spec (F := fun a => eval g n a) (Rf := fun a => path_rel g a)).
+    apply (ev_seq_spec g (fun a => eval g n a) (fun a => path_rel g a) Kp nullable).
     + intros a. apply path_rel_RN.
     + intros a b. apply refl_nullable.
     + destruct l; [discriminate|congruence].
     + rewrite Forall_forall in IH |- *. intros a Ha. apply IH; auto.
   - simpl in Hw, Hi. rewrite forallb_forall in Hw. rewrite existsb_false in Hi.
-    eapply ev_spec_weaken; [|apply (ev_alt_spec (F := fun a => eval g n a) (Rf := fun a => path_rel g a) (Kf := Kp))].
+    eapply ev_spec_weaken; [|apply (ev_alt_spec g (fun a => eval g n a) (fun a => path_rel g a) Kp)].
     + unfold Kp. simpl. rewrite existsb_false. auto.
     + rewrite Forall_forall in IH |- *. intros a Ha. apply IH; auto.
   - simpl. apply ev_mul_spec; auto. apply path_rel_RN.
@@ -85,7 +85,7 @@ Proof.
   - simpl in *. unfold ev_inv in He.
     destruct (eval g (fuel g) a o s) as [l1| |] eqn:E; try discriminate.
     simpl in He. injection He as <-. apply NoDup_map_swap.
-    eapply IH; eauto. destruct Hk as [?|[? ?]]; [left; auto|right; auto].
+    apply (IH o s l1); auto. unfold cond in *. destruct Hk as [?|[? ?]]; [left; auto|right; auto].
   - clear IH. simpl in Hw, Hi, Hk. cbn [eval] in He. unfold ev_mul in He.
     pose proof (eval_spec g (fuel g) (le_n _) a Hw Hi) as Hf.
     destruct (mul_raw_spec g (eval g (fuel g) a) (path_rel g a) (has_seq3 a = false) (fuel g) m
